@@ -8,11 +8,13 @@ import (
 const c18Rule = "the same documents and assignments given to the k-groups, compact and roaring index (all fields configured with the same parser: common, number or string-hash), values drawn from the C09 representation zoo (all integer widths, numeric strings, json.Number, floats incl. fractional and negative, unicode strings, typed slices, heterogeneous lists, also shapes with no written specification such as lists mixing numbers and words), include/exclude, repeated fields, empty conjunctions; the three answers are compared pairwise and each index with its model. Non-trivial = all three accept and some query returns a non-empty proper subset; distinct = distinct input"
 
 type triIn struct {
-	Tri    bool     `json:"tri"`
-	Parser string   `json:"parser"`
-	NF     int      `json:"nf"`
-	Docs   []eDoc   `json:"docs"`
-	Qs     []eQuery `json:"qs"`
+	Tri     bool     `json:"tri"`
+	Parser  string   `json:"parser"`
+	NF      int      `json:"nf"`
+	Docs    []eDoc   `json:"docs"`
+	Qs      []eQuery `json:"qs"`
+	Batch   int      `json:"batch,omitempty"`
+	Rebuild int      `json:"rebuild,omitempty"`
 }
 
 func zooValue(r *Rand, parser string) TV {
@@ -101,6 +103,12 @@ func init() {
 					t.Qs = append(t.Qs, eQuery{A: a})
 				}
 				t.Qs = append(t.Qs, eQuery{})
+				switch { // the posting-list builders also get the documents in groups / with an intermediate BuildIndex
+				case r.Chance(25):
+					t.Batch = 2 + r.Intn(3)
+				case r.Chance(30) && len(t.Docs) > 1:
+					t.Rebuild = 1 + r.Intn(len(t.Docs)-1)
+				}
 				add(t)
 			}
 		},
@@ -120,7 +128,7 @@ func init() {
 			// the unknown query field must use the same parser on the posting-list side when it happens
 			// to be created by a document: it never is (documents use fields < NF)
 			mk := func(kind string) (execResult, error) {
-				c := eCase{Kind: kind, Policy: "error", Parsers: parsers, Docs: t.Docs, Queries: t.Qs}
+				c := eCase{Kind: kind, Policy: "error", Parsers: parsers, Docs: t.Docs, Queries: t.Qs, Batch: t.Batch, Rebuild: t.Rebuild}
 				b, _ := json.Marshal(c)
 				return execE2E(b)
 			}
